@@ -2,6 +2,7 @@ package main
 
 import (
 	"fmt"
+	"go/ast"
 	"go/constant"
 	"go/token"
 	"go/types"
@@ -72,6 +73,10 @@ type FnCtx struct {
 	bvMode   bool
 	ufs      map[string]string
 	ufList   []string
+	touchLog map[string]bool      // when non-nil: records the heap components read (used to find the footprint of a rec spec function)
+	recInfo  map[string][]string  // rec spec function -> heap components it reads
+	recBusy  map[string]bool
+	ufAxioms map[string]string // per uninterpreted function: an axiom rendered right after its declaration (range well-formedness)
 	loopWrites map[string]map[string]bool
 	curFrame *Frame
 }
@@ -96,6 +101,8 @@ type Frame struct {
 	bindings []SV // closure free variable values
 	callerFrame *Frame
 	unrollIter map[*ssa.BasicBlock]int
+	hintOK     map[int]bool  // `hint return` clauses that could be evaluated at some return
+	hintErr    map[int]error // ... and those that could not (a local of the hint is not in scope at that return)
 	curBlock *ssa.BasicBlock
 	curLocals map[string]func(*State) SV
 	curLocalAddrs map[string]SV
@@ -203,6 +210,9 @@ func (fc *FnCtx) cover(name, guard string) {
 // ---------- heap components ----------
 
 func (fc *FnCtx) comp(st *State, key, sort string) string {
+	if fc.touchLog != nil {
+		fc.touchLog[key] = true
+	}
 	if _, ok := fc.comps[key]; !ok {
 		fc.comps[key] = sort
 		fc.compList = append(fc.compList, key)
@@ -374,8 +384,8 @@ func (fc *FnCtx) registerComp(key, sort string) {
 func (fc *FnCtx) havocComps(st *State, keys map[string]bool, all bool) {
 	if all {
 		for _, k := range fc.compList {
-			if k == "W" {
-				continue
+			if k == "W" || strings.HasPrefix(k, "G|v|") {
+				continue // auxiliary variables of the function under verification: no callee can write them
 			}
 			st.heap[k] = fc.fresh("H_"+mangle(k), fc.comps[k])
 		}
@@ -704,9 +714,13 @@ func (fr *Frame) walk(entry *State, params []SV, entryGuard string) {
 			}
 		}
 		g := fr.guard[b]
+		ghostDone := map[*GhostUpd]bool{}
 		for _, in := range b.Instrs {
 			if _, ok := in.(*ssa.Phi); ok {
 				continue
+			}
+			if fr.top && fr.spec != nil && len(fr.spec.GhostUpds) > 0 {
+				fr.ghostUpdates(in, st, g, ghostDone)
 			}
 			fr.exec(in, st, g)
 		}
@@ -889,4 +903,106 @@ func (fc *FnCtx) constTerm(c *ssa.Const) string {
 		}
 	}
 	return fc.tc.zero(t)
+}
+
+// ---------- ghost (auxiliary) variables ----------
+
+// sourceLine returns the trimmed text of the source line of pos ("" if unknown).
+func (eng *Engine) sourceLine(pos token.Pos) string {
+	if !pos.IsValid() {
+		return ""
+	}
+	p := eng.prog.Fset.Position(pos)
+	if eng.srcLines == nil {
+		eng.srcLines = map[string][]string{}
+	}
+	ls, ok := eng.srcLines[p.Filename]
+	if !ok {
+		data, err := os.ReadFile(p.Filename)
+		if err == nil {
+			ls = strings.Split(string(data), "\n")
+		}
+		eng.srcLines[p.Filename] = ls
+	}
+	if p.Line < 1 || p.Line > len(ls) {
+		return ""
+	}
+	return strings.TrimSpace(ls[p.Line-1])
+}
+
+// ghostUpdates performs the ghost assignments anchored at the source line of instruction `in` (once per block, before the
+// first instruction of that line).
+func (fr *Frame) ghostUpdates(in ssa.Instruction, st *State, g string, done map[*GhostUpd]bool) {
+	if _, isDbg := in.(*ssa.DebugRef); isDbg {
+		return
+	}
+	fc := fr.fc
+	line := fc.eng.sourceLine(in.Pos())
+	if line == "" {
+		return
+	}
+	for _, u := range fr.spec.GhostUpds {
+		if done[u] || u.Anchor != line {
+			continue
+		}
+		done[u] = true
+		u.Hits++
+		locals := fr.localsBefore(in)
+		fr.curLocals, fr.curLocalAddrs = locals, nil
+		env := fr.specEnv(st, fr.entry)
+		v := env.evalSafe(u.E.E)
+		fr.curLocals = nil
+		if v == nil {
+			fc.eng.stale(fr.spec, u.E, fmt.Errorf("cannot evaluate ghost update of %s", u.Name))
+			continue
+		}
+		k := "G|v|" + u.Name
+		fc.setComp(st, k, "Int", v.t) // the state of a block is path-specific: joins merge by guard
+	}
+}
+
+// localsBefore: source-level names (debug refs) whose defining block dominates the block of `in`, or that precede `in` in its block.
+func (fr *Frame) localsBefore(in ssa.Instruction) map[string]func(*State) SV {
+	out := map[string]func(*State) SV{}
+	cur := in.Block()
+	fc := fr.fc
+	for _, b := range fr.fn.DomPreorder() {
+		if !b.Dominates(cur) {
+			continue
+		}
+		for _, x := range b.Instrs {
+			if x == in {
+				break
+			}
+			d, ok := x.(*ssa.DebugRef)
+			if !ok {
+				continue
+			}
+			id, ok := d.Expr.(*ast.Ident)
+			if !ok {
+				continue
+			}
+			sv, known := fr.vals[d.X]
+			if !known {
+				switch d.X.(type) {
+				case *ssa.Const, *ssa.Global:
+					sv = fr.val(d.X)
+				default:
+					continue
+				}
+			}
+			if d.IsAddr {
+				pt, ok := d.X.Type().Underlying().(*types.Pointer)
+				if !ok {
+					continue
+				}
+				a := sv
+				out[id.Name] = func(st *State) SV { return SV{t: fc.load(st, a.t, pt.Elem()), typ: pt.Elem()} }
+			} else {
+				v := sv
+				out[id.Name] = func(*State) SV { return v }
+			}
+		}
+	}
+	return out
 }
